@@ -205,7 +205,9 @@ func (s *SourceControl) runLaterIfActive(f func()) error {
 	if !s.isSourceActive {
 		return fmt.Errorf("no source is active")
 	}
+	verifPoint("rpc.queue.before")
 	s.queuedRequests <- f
+	verifPoint("rpc.queue.sent")
 	return <-s.queuedResults
 }
 
